@@ -71,7 +71,32 @@ def _stor_sources(t):
     t.repo(CORE + "acquire-core-logger/logger.c")
 
 
+def _simcam_sources(t):
+    t.verif("harness/simcam/simcam.cpp")
+    t.verif("engine/vsim/vsim.cpp")
+    ub = ["-fsanitize=alignment,bounds", "-fno-sanitize-recover=alignment,bounds"]
+    t.repo(DRV + "simcams/simulated.camera.c", ub)
+    t.repo(DRV + "simcams/imfill.pattern.cpp", ub)
+    t.repo(DRV + "simcams/popcount.cpp")
+    t.repo(DRV + "simcams/3rdParty/pcg-c-basic-0.9/pcg_basic.c")
+    t.repo(DRV + "basics.driver.c")
+    t.repo(CORE + "acquire-device-hal/device/hal/camera.c")
+    t.repo(CORE + "acquire-device-hal/device/hal/driver.c")
+    t.repo(CORE + "acquire-device-properties/device/props/components.c")
+    t.repo(CORE + "acquire-device-properties/device/props/device.c")
+    t.repo(CORE + "acquire-core-platform/linux/platform.c", PLATFORM_RENAMES)
+    t.repo(CORE + "acquire-core-logger/logger.c")
+
+
 HARNESSES = {
+    "simcam": {
+        "props": ["C17", "C18"],
+        "sources": _simcam_sources,
+        "engines": ["rc", "rp"],
+        "link_flags": ["-fsanitize=undefined"],
+        "quick": {"rc_cases": 1200, "rc_size": 40},
+        "thorough": {"rc_cases": 20000, "rc_size": 60},
+    },
     "stor": {
         "props": ["C14", "C15", "C16"],
         "sources": _stor_sources,
